@@ -115,6 +115,7 @@ class RSpec:
         self.cfg = cfg or {}
         self.env_kwargs = env_kwargs or {}
         self._envs = {}
+        self._inst_cache = {}
 
     # -- environment ---------------------------------------------------------------------
     def size_of(self, inst):
@@ -176,7 +177,13 @@ class RSpec:
         return True
 
     def instances(self, tier, seed):
-        return list(self.hand_instances(tier)) + list(self.seeded_instances(tier, seed))
+        ck = (tier, seed)
+        if ck not in self._inst_cache:
+            out = list(self.hand_instances(tier)) + list(self.seeded_instances(tier, seed))
+            ids = [i for i, _ in out]
+            assert len(ids) == len(set(ids)), f"duplicate instance ids in {self.key}: {sorted(x for x in ids if ids.count(x) > 1)[:4]}"
+            self._inst_cache[ck] = out
+        return self._inst_cache[ck]
 
 
 # ---------------------------------------------------------------------------------- TSP / ATSP
@@ -535,8 +542,8 @@ class MTVRPSpec(RSpec):
             tws = [([[0.0, INF]] * 4, [0.0] * 4)]
         if tier == "quick":
             dem, limits, tws = dem[:2], limits[:2], tws[:2]
-        for (lh, bh), L, (tw, st) in itertools.product(dem, limits, tws):
-            iid = f"diamond3-lh{'-'.join(str(int(x * 4)) for x in lh)}-bh{'-'.join(str(int(x * 4)) for x in bh)}-L{L}-tw{tw[1][0]:.3f}"
+        for (lh, bh), L, (twi, (tw, st)) in itertools.product(dem, limits, list(enumerate(tws))):
+            iid = f"diamond3-lh{'-'.join(str(int(x * 4)) for x in lh)}-bh{'-'.join(str(int(x * 4)) for x in bh)}-L{L}-tw{twi}"
             out.append((iid, self._inst(pts, lh, bh, L, [list(w) for w in tw], list(st))))
         return out
 
